@@ -114,17 +114,26 @@ func FetchFn(from interface{}, name string) reflect.Value {
 	case reflect.Map:
 		value := d.MapIndex(reflect.ValueOf(name))
 		if value.IsValid() && value.CanInterface() {
-			return value.Elem()
+			return unwrap(value)
 		}
 	case reflect.Struct:
 		// If struct has not method, maybe it has func field.
 		// To access this field we need dereference value.
 		value := d.FieldByName(name)
 		if value.IsValid() {
-			return value
+			return unwrap(value)
 		}
 	}
 	panic(fmt.Sprintf(`cannot get "%v" from %T`, name, from))
+}
+
+// unwrap returns the function held by a member of interface type; a member
+// of function type is the function itself.
+func unwrap(value reflect.Value) reflect.Value {
+	if value.Kind() == reflect.Interface {
+		return value.Elem()
+	}
+	return value
 }
 
 func FetchFnNil(from interface{}, name string) reflect.Value {
